@@ -19,7 +19,10 @@ MANIFEST = dict(
          "{refused, cancelled, timeout} fault, exhaustively in both tiers, plus seeded random interfaces; 3xx answers with a Location header under the "
          "three CheckRedirect policies (follow / ErrUseLastResponse / refuse with an error); and clients whose chain contains LoggingMiddleware and "
          "RetryMiddleware(n) in front of a scripted base transport (every script of length n+1 over 8 answers for n = 0..2; composed with the C20 "
-         "model: C10_retry_first_acceptable, C10_retry_chain) — the error path must still quote the body.",
+         "model: C10_retry_first_acceptable, C10_retry_chain) — the error path must still quote the body; and clients built with five RestConf "
+         "option combinations (DefaultHeaders, Timeout(1|5|30) in the seconds convention, logging, Use) x methods with and without a context "
+         "parameter against a transport that honours the request context: the status/body mapping is unchanged, a context cancelled before the call "
+         "or a deadline expiring during it comes back as that error, and the context the transport receives is the caller's (ctxwire).",
     note="Lean kernel + standard axioms; encoding/json behaviour on the four body classes and http.Client.Do are assumptions checked by the "
          "correspondence run; status >= 600 is outside the property (region Out, advisory). Known finding F_respWithError: a response that "
          "client.Do returns together with an error (refused redirect) is dropped.",
@@ -51,22 +54,32 @@ def status_spec(statuses):
     return ",".join(str(s) for s in statuses)
 
 
+# RestConf option combinations every outcome must be independent of (Timeout in the seconds-count convention of the generated init())
+HDR = 'shoot.DefaultHeaders(map[string]string{"X-Default": "d1", "Accept": "text/x-default"})'
+CONFIGS = [("hdr", [HDR]),
+           ("t5", ["shoot.Timeout(5)"]),
+           ("t1", ["shoot.Timeout(1)"]),
+           ("t30hdrlog", ["shoot.Timeout(30)", HDR, "shoot.EnableLogging(true)", "shoot.Use(vrest.TagMW(1))"]),
+           ("loguse", ["shoot.EnableLogging(true)", "shoot.Use(vrest.TagMW(1))", "shoot.Use(vrest.TagMW(2))"])]
+CFG_STATUSES_SMALL = [200, 204, 299, 302, 404, 500, 503]
+
 REDIR_FIRSTS = [301, 302, 303, 307, 308]
 REDIR_SECONDS = [200, 204, 404, 503, 302]
 RETRY_ALPHA = ["r503m", "r500e", "e", "r200v", "r200e", "r404v", "r302e", "r502w"]
 CLASS_OF = {"e": "empty", "v": "valid", "m": "malformed", "w": "wrongtype"}
 
 
-def make_pkg(pid, iface, statuses, faults=FAULTS, redirect=None, retry=None, logged=LOGGED):
+def make_pkg(pid, iface, statuses, faults=FAULTS, redirect=None, retry=None, logged=LOGGED, configured=None):
+    configured = [(t, o, status_spec(CFG_STATUSES_SMALL)) for t, o in CONFIGS] if configured is None else configured
     """one package = one interface; sub-cases = method x status x body, method x fault, redirect legs, retry-chain legs"""
     spec = statuses if isinstance(statuses, str) else status_spec(statuses)
     files = restgen.render_package("cs", [iface], modpath="verifcases/c_" + pid)
     args = ["rest", "-type=" + iface["name"]]
     return {"id": pid, "iface": iface, "files": files, "runs": [{"args": args}],
             "oracle": {".": restgen.c10_oracle("cs", iface, spec, BODIES, faults, redirect=redirect, retry=retry, logged=logged,
-                                               logged_statuses=status_spec(BOUNDARY))},
+                                               logged_statuses=status_spec(BOUNDARY), configured=configured)},
             "statuses": expand(spec), "faults": list(faults), "redirect": redirect, "retry": retry or {}, "logged": list(logged or []),
-            "cmd": "shoot " + " ".join(args)}
+            "configured": [(t, expand(st)) for t, _o, st in configured], "cmd": "shoot " + " ".join(args)}
 
 
 def script_sexp(spec):
@@ -113,6 +126,23 @@ def subcases(pkg):
                             "sexp": "(case %s rest-call (shape %s) (status %d) (body %s))" % (cid, shape, st, b),
                             "key": "%s|%s|log|%d|%s" % (shape, m["result"]["type"], st, b),
                             "cmd": json.dumps(dict(info, status=st, body=b, logged="chain"))})
+        for tag, csts in pkg.get("configured", []):
+            for st in csts:
+                for b in BODIES:
+                    cid = "%s.%s.cf.%s.%s.%s" % (pkg["id"], m["name"], tag, sid(st), b)
+                    out.append({"id": cid, "pkg": pkg["id"], "okey": "%s@%s/%d/%s/" % (m["name"], tag, st, b), "shape": shape, "status": st, "body": b,
+                                "fault": None, "cfg": tag, "wire": "caller" if m.get("ctx") else "background",
+                                "sexp": "(case %s rest-call (shape %s) (status %d) (body %s))" % (cid, shape, st, b),
+                                "key": "%s|%s|cfg:%s|%s|%d|%s" % (shape, m["result"]["type"], tag, "ctx" if m.get("ctx") else "noctx", st, b),
+                                "cmd": json.dumps(dict(info, status=st, body=b, cfg=tag))})
+            if m.get("ctx"):
+                for f, lf in (("cancelled-ctx", "cancelled"), ("deadline-ctx", "timeout")):
+                    cid = "%s.%s.cf.%s.%s" % (pkg["id"], m["name"], tag, f)
+                    out.append({"id": cid, "pkg": pkg["id"], "okey": "%s@%s/fault/%s/" % (m["name"], tag, f), "shape": shape, "status": None, "body": None,
+                                "fault": lf, "cfg": tag, "wire": "caller",
+                                "sexp": "(case %s rest-call (shape %s) (fault %s))" % (cid, shape, lf),
+                                "key": "%s|%s|cfg:%s|%s" % (shape, m["result"]["type"], tag, f),
+                                "cmd": json.dumps(dict(info, fault=f, cfg=tag))})
         for tag, _lg, _k in pkg.get("logged", []):
             for f in ("refused", "cancelled", "timeout"):
                 cid = "%s.%s.lf.%s.%s" % (pkg["id"], m["name"], tag, f)
@@ -161,7 +191,13 @@ def subcases(pkg):
 
 def gen_pkgs(ctx):
     retry_all = {n: [",".join(t) for t in itertools.product(RETRY_ALPHA, repeat=n + 1)] for n in (0, 1, 2)}
-    pkgs = [make_pkg("x0", exhaustive_iface(), ALL_STATUSES, redirect=(REDIR_FIRSTS, REDIR_SECONDS, BODIES), retry=retry_all)]
+    full_cfg = [(t, o, status_spec(BOUNDARY)) for t, o in CONFIGS]
+    pkgs = [make_pkg("x0", exhaustive_iface(), ALL_STATUSES, redirect=(REDIR_FIRSTS, REDIR_SECONDS, BODIES), retry=retry_all, configured=full_cfg)]
+    # the same interface without context parameters: every outcome must be the same (and independent of Timeout(n))
+    noctx = exhaustive_iface()
+    for m in noctx["methods"]:
+        m["ctx"] = None
+    pkgs.append(make_pkg("x1", noctx, ALL_STATUSES, redirect=(REDIR_FIRSTS[:2], REDIR_SECONDS[:2], ["valid"]), retry={1: retry_all[1][:16]}, configured=full_cfg))
     g = restgen.RestGen(ctx.rng)
     # every verb x every shape at least once, then random interfaces
     k = 0
@@ -235,6 +271,10 @@ def run_pkgs(ctx, pkgs):
                 for side in ("model", "spec"):
                     m[side]["errtext"] = "true"
                     m[side]["errtimeout"] = "true" if c["fault"] == "timeout" else "false"
+            if c.get("cfg"):
+                # the context the transport receives is the caller's, whatever options the client was built with
+                m["model"]["ctxwire"] = c["wire"]
+                m["spec"]["ctxwire"] = c["wire"]
             if c.get("redir"):
                 # the default policy follows the redirect: two round trips; the other two policies stop after one
                 m["model"]["nreq"] = c["nreq"]
@@ -252,6 +292,8 @@ def run(ctx, obl):
     cases, impl, model = run_pkgs(ctx, pkgs)
     for c in cases:
         res.hist("shape", c["shape"])
+        if c.get("cfg"):
+            res.hist("restconf-options", c["cfg"])
         if c["fault"]:
             res.hist("fault", c["fault"])
         elif c.get("retry"):
